@@ -41,7 +41,8 @@ TraceStep ==
 TraceFinish ==
   /\ verdict = "run" /\ i = Len(Events) + 1
   /\ verdict' = IF S.pc # "done" THEN "missing_event"
-                ELSE IF Case.final.raised # "" THEN "raised:" \o Case.final.raised
+                ELSE IF (Case.final.raised # "") # S.st.raised THEN "raised:" \o Case.final.raised
+                ELSE IF Case.final.nerrors # Len(S.st.errors) THEN "final_errors"
                 ELSE IF Case.final.returned # S.returned THEN "final_returned"
                 \* C06: what is delivered is the k-th record, cell by cell, and the headers are the
                 \* cleaned cells of the first non-blank record
